@@ -75,6 +75,12 @@ var c07PanicOK = map[string]string{
 
 var c07DivOK = map[string]string{}
 
+var c07MapKeyOK = map[string]string{
+	"data.Map.SetAlways|interface-keyed map access":         "the trusted native write used by the runtime packages for their own struct-owned maps (header names, field names); keys are strings chosen by Go code, and the function has no error to return",
+	"data.hashableKey|interface-keyed map access":           "this is the probe itself: it hashes the key under a deferred recover",
+	"resolve.Info.registerScope|interface-keyed map access": "keyed by syntax-tree nodes (pointers), in the formatter's resolver",
+}
+
 var c07ReflectOK = map[string]string{
 	"reflect.describeBytecodeFunction|reflect call guarded":   "calls the String method of a *bytecode.ByteCode (the caller selects this branch by the value's reflect type string); an interpreter method, not a native function of the program's choosing",
 	"reflect.describeBytecodeFunction|reflect call guarded#2": "calls the Declaration method of the same *bytecode.ByteCode",
@@ -93,6 +99,8 @@ func runC07(w *World, r *Report) {
 	r.Rule("R-C07-3", "integer division / remainder: constant non-zero divisor or behind a test of the divisor", 20)
 	r.Rule("R-C07-4", "reflect.Value.Call / CallSlice only inside a function with a deferred recover", 1)
 	r.Rule("R-C07-5", "no dereference of a pointer on a path from the edge where it was found nil", 0)
+	r.Rule("R-C07-7", "a Go map with an interface key type is indexed only with a key of comparable static type, a key obtained by ranging over a map, or behind data.hashableKey(key)", 5)
+	r.Rule("R-C07-6", "every recover() in the repository is called directly by a function that is the target of a defer statement (a recover() in a helper recovers nothing)", 4)
 
 	var fns []*ssa.Function
 
@@ -216,6 +224,134 @@ func runC07(w *World, r *Report) {
 		c07Nil(w, r, fn, mkKey)
 	}
 
+	// ---- R-C07-7: interface-keyed Go maps are not indexed with a key that cannot be hashed
+	for _, fn := range fns {
+		n := 0
+
+		allInstrs(fn, func(in ssa.Instruction) {
+			var m, k ssa.Value
+
+			switch x := in.(type) {
+			case *ssa.Lookup:
+				m, k = x.X, x.Index
+			case *ssa.MapUpdate:
+				m, k = x.Map, x.Key
+			case *ssa.Call:
+				if b, isB := x.Call.Value.(*ssa.Builtin); isB && b.Name() == "delete" && len(x.Call.Args) == 2 {
+					m, k = x.Call.Args[0], x.Call.Args[1]
+				}
+			}
+
+			if m == nil {
+				return
+			}
+
+			mt, ok := m.Type().Underlying().(*types.Map)
+			if !ok {
+				return
+			}
+
+			if _, isIface := mt.Key().Underlying().(*types.Interface); !isIface {
+				return
+			}
+
+			n++
+
+			key := fnKey(fn) + "|interface-keyed map access"
+			if n > 1 {
+				key += "#" + sprintInt(n)
+			}
+
+			// a key whose static type is known and comparable
+			kk := k
+			if mi, ok := kk.(*ssa.MakeInterface); ok {
+				if _, isIface := mi.X.Type().Underlying().(*types.Interface); !isIface && types.Comparable(mi.X.Type()) {
+					r.Discharge("R-C07-7", key, w.pos(in.Pos()), "key of static type "+mi.X.Type().String())
+
+					return
+				}
+			}
+
+			// a key taken from a range over the same kind of map was hashed before
+			if derivesFrom(kk, func(v ssa.Value) bool { _, isNext := v.(*ssa.Next); return isNext }, nil) {
+				r.Discharge("R-C07-7", key, w.pos(in.Pos()), "key comes from ranging over a map (already hashed once)")
+
+				return
+			}
+
+			cuts := cutEdges(fn, func(f Fact) bool {
+				if f.Kind != "true" {
+					return false
+				}
+
+				c, ok := f.V.(*ssa.Call)
+
+				return ok && strings.HasSuffix(callID(c.Common()), "data.hashableKey") && len(c.Call.Args) == 1 && (c.Call.Args[0] == kk || sameSliceValue(c.Call.Args[0], kk))
+			})
+
+			if len(cuts) > 0 && !instrReachableAfterCut(fn, in, cuts) {
+				r.Discharge("R-C07-7", key, w.pos(in.Pos()), "behind hashableKey(key)")
+			} else if why, ok := c07MapKeyOK[key]; ok {
+				r.Except("R-C07-7", key, w.pos(in.Pos()), why)
+			} else {
+				r.Violate("R-C07-7", key, w.pos(in.Pos()), "a map with an interface key type is indexed with a value whose dynamic type is not known to be hashable: a function, slice or map key supplied by the program makes the Go runtime panic (hash of unhashable type)")
+			}
+		})
+	}
+
+	// ---- R-C07-6: a recover() that can recover
+	// Go honours recover() only when the deferred function calls it directly.  A recover() moved
+	// into a helper that the deferred function calls returns nil and recovers nothing.
+	deferred := map[*ssa.Function]bool{}
+
+	for _, p := range w.pkgs {
+		for _, fn := range w.srcFuncs(p) {
+			allInstrs(fn, func(in ssa.Instruction) {
+				if d, ok := in.(*ssa.Defer); ok {
+					if cf := calleeFunction(d.Common()); cf != nil {
+						deferred[cf] = true
+					}
+				}
+			})
+		}
+	}
+
+	nRec := 0
+
+	for _, p := range w.pkgs {
+		for _, fn := range w.srcFuncs(p) {
+			n := 0
+
+			allInstrs(fn, func(in ssa.Instruction) {
+				c, ok := in.(*ssa.Call)
+				if !ok {
+					return
+				}
+
+				b, isB := c.Call.Value.(*ssa.Builtin)
+				if !isB || b.Name() != "recover" {
+					return
+				}
+
+				nRec++
+				n++
+
+				key := fnKey(fn) + "|recover() is called by the deferred function itself"
+				if n > 1 {
+					key += "#" + sprintInt(n)
+				}
+
+				if deferred[fn] {
+					r.Discharge("R-C07-6", key, w.pos(in.Pos()), "")
+				} else {
+					r.Violate("R-C07-6", key, w.pos(in.Pos()), "recover() is called in a function that is never the direct target of a defer: Go ignores such a call, so the panic it was meant to stop (a send on a closed channel, a reflective call) takes the whole interpreter down")
+				}
+			})
+		}
+	}
+
+	r.Unit("recover_calls", nRec)
+
 	r.Unit("pointer_nil_tests_examined", c40NilTests)
 }
 
@@ -304,6 +440,9 @@ func c07Nil(w *World, r *Report, fn *ssa.Function, mkKey func(string) string) {
 //   D4  x is a phi each of whose operands is discharged by D1 or D3 on its own edge.
 func c07PartnerContract(ta *ssa.TypeAssert) string {
 	fn := ta.Parent()
+	c07CurrentAssert = ta
+
+	defer func() { c07CurrentAssert = nil }()
 	x := resolveLocal(ta.X)
 
 	if why := c07CoerceModel(x, ta.AssertedType); why != "" {
@@ -433,8 +572,13 @@ func c07SameTypePair(fn *ssa.Function, a, b ssa.Value, depth int) bool {
 	ca, ia := resultOf(a)
 	cb, ib := resultOf(b)
 
-	// two results of one Normalize
-	if ca != nil && ca == cb && callID(ca.Common()) == "internal/language/data.Normalize" && ia != ib && ia <= 1 && ib <= 1 {
+	// NOT a contract: the two results of one data.Normalize call.  Normalize hands an array and a
+	// scalar back unchanged (its early returns for array operands), so `"abc" < []string{"a"}` reached
+	// `v2.(string)` with an array — a seeded-change sub-agent demonstrated the crash on the unmodified
+	// tree.  The handlers now call sameKindOperands after Normalize; that call is the contract:
+	// on its nil-error edge both operands have the same kind (hence, for the scalar case types, the
+	// same Go type).
+	if c07SameKindChecked(fn, unwrap(a), unwrap(b), c07CurrentAssert) {
 		return true
 	}
 
@@ -494,4 +638,50 @@ func c07SameTypePair(fn *ssa.Function, a, b ssa.Value, depth int) bool {
 	}
 
 	return false
+}
+
+// c07SameKindChecked: fn calls bytecode.sameKindOperands(a, b) (either order); the assertion sites
+// this is used for are additionally required (by the caller's edge cut on the comma-ok case) to lie
+// behind the type switch that follows it.
+// c07CurrentAssert is the assertion being discharged (set by c07PartnerContract): the kind check
+// counts only when the assertion lies behind its success (nil) edge.
+var c07CurrentAssert *ssa.TypeAssert
+
+func c07SameKindChecked(fn *ssa.Function, a, b ssa.Value, ta *ssa.TypeAssert) bool {
+	found := false
+
+	allInstrs(fn, func(in ssa.Instruction) {
+		c, ok := in.(*ssa.Call)
+		if !ok || !strings.HasSuffix(callID(c.Common()), "bytecode.sameKindOperands") || len(c.Call.Args) != 2 {
+			return
+		}
+
+		strip := func(v ssa.Value) ssa.Value {
+			v = resolveLocal(v)
+			if mi, ok := v.(*ssa.MakeInterface); ok {
+				return mi.X
+			}
+
+			return v
+		}
+
+		p, q := strip(c.Call.Args[0]), strip(c.Call.Args[1])
+		if !((p == a && q == b) || (p == b && q == a)) {
+			return
+		}
+
+		if ta == nil {
+			found = true
+
+			return
+		}
+
+		// the assertion is reachable only through the edge on which the check returned nil
+		cuts := cutEdges(fn, func(f Fact) bool { return f.Kind == "nil" && f.V == ssa.Value(c) })
+		if len(cuts) > 0 && !instrReachableAfterCut(fn, ta, cuts) {
+			found = true
+		}
+	})
+
+	return found
 }
